@@ -478,9 +478,12 @@ def handleLS (st : DState) (toks : List String) : Option (DState × String) :=
         | _ => st
       match op, st.node.live, st.lsPeerFault with
       | .peer id port, some lv, some k =>
-        -- node.rs:150-157 as restated in the harness: the record is written only when the address differs
+        -- OpenRaftNode::persist_peer_addr_if_needed: the record is written only when the address differs
         if lv.peers.get? id = some port then some (st, "ok")
-        else if k = 0 then some ({ st with lsPeerFault := none }, "err")
+        else if k = 0 then
+          -- the map of the running process is updated first, the record write fails
+          some ({ st with lsPeerFault := none,
+                          node := { st.node with live := some { lv with peers := lv.peers.insert id port } } }, "err")
         else
           let (n, o) := LogStore.step st.node op
           some ({ st with node := n, lsPeerFault := some (k - 1) }, LS.fmtOut o)
